@@ -342,7 +342,16 @@ def run(ctx):
         ref = {"primary": ({"Some(Primary)"}, 0), "replica": ({"Some(Replica)"}, 0), "any": ({"None"}, 0), "auto": ({"None"}, 1), "default": (None, None)}
         eqs = tec.calls("re:^core::str::traits::<impl core::cmp::PartialEq for str>::eq$")
         found = {}
+        # only the comparisons inside the SetServerRole arm of `match command` (other SET commands have keywords of their own, e.g. `default`)
+        armE, _, _ = discr_edges(tec, r"pgcat::query_router::Command", "SetServerRole", switches_cache=tsw)
+        arm_blocks = set()
+        for _, d_ in armE:
+            arm_blocks |= {b_ for b_ in tec.reach([d_]) if tec.dominates(d_, b_)}
+        if not arm_blocks:
+            r6.missing("SetServerRole arm of `match command` in try_execute_command")
         for c in eqs:
+            if c.block not in arm_blocks:
+                continue
             lits = arg_strs(tec, c) & set(ref)
             if len(lits) != 1:
                 continue
